@@ -810,7 +810,18 @@ Qed.
 
 (* the schema-level step for visit_schema_st, for any on_type with that specification *)
 Definition state_ok (G : list (string * string)) (pkg : string) (st : list (string * object)) : Prop :=
-  forall k o, In (k, o) st -> k = o_name o /\ o_selfpkg o = pkg /\ all_refs_in G (o_type o).
+  forall k o, In (k, o) st -> k = o_name o /\ o_selfpkg o = pkg /\ forall r, In r (all_refs (o_type o)) -> ref_good G pkg st r.
+
+Lemma state_ok_set G pkg st name n :
+  state_ok G pkg st -> name = o_name n -> o_selfpkg n = pkg ->
+  (forall r, In r (all_refs (o_type n)) -> ref_good G pkg (objs_set st name n) r) ->
+  state_ok G pkg (objs_set st name n).
+Proof.
+  intros HQ Hn Hp Hr k o Hin. destruct (objs_set_in_kv _ _ _ _ _ Hin) as [Y|[-> ->]].
+  - destruct (HQ _ _ Y) as [A [B C]]. split; [exact A|split; [exact B|]]. intros r Hx. eapply ref_good_mono; [|apply C; exact Hx].
+    intros k0 Hk0. apply objs_set_has. left. exact Hk0.
+  - split; [exact Hn|split; [exact Hp|exact Hr]].
+Qed.
 
 Lemma visit_schema_st_step (on_type : list (string * object) -> ty -> res (ty * list (string * object))) (CT : ty -> Prop) s s' :
   (forall ko, In ko (s_objects s) -> fst ko = o_name (snd ko) /\ o_selfpkg (snd ko) = s_pkg s) ->
@@ -860,7 +871,7 @@ Proof.
     + apply Hfin. eapply ref_good_mono; [exact L|apply R0; exact Hr].
     + apply in_flat_map in Hr. destruct Hr as [[k o'] [Hin Hr]]. simpl in Hr. apply fold_add_object_in_kv in Hin. destruct Hin as [Hin|[Hin _]].
       * destruct (C k o' Hin) as [[]|[_ [_ Hg]]]. apply Hfin. apply Hg. exact Hr.
-      * apply in_map_iff in Hin. destruct Hin as [[k1 o1] [E Hin]]. simpl in E. subst o1. left. exact (proj2 (proj2 (Q1 k1 o' Hin)) r Hr).
+      * apply in_map_iff in Hin. destruct Hin as [[k1 o1] [E Hin]]. simpl in E. subst o1. apply Hfin. exact (proj2 (proj2 (Q1 k1 o' Hin)) r Hr).
 Qed.
 
 (* ---------- DisjunctionToType ---------- *)
@@ -875,8 +886,7 @@ Proof.
     + inversion H; subst. split; [intros k0 Hk; exact Hk|split; [exact HQ|]]. intros r [<-|[]]. right. split; [reflexivity|exact Eh].
     + match type of H with (do _ <- ?X ; _) = _ => destruct X as [dh| | |] eqn:Edh end; simpl in H; try discriminate.
       inversion H; subst. clear H. split; [intros k0 Hk; apply objs_set_has; left; exact Hk|split].
-      * intros k0 o Hx. destruct (objs_set_in_kv _ _ _ _ _ Hx) as [Y|[-> ->]]; [exact (HQ _ _ Y)|]. simpl. split; [reflexivity|split; [reflexivity|]].
-        intros r Hr. simpl in Hr. apply Hin. simpl. apply in_app_or in Hr. destruct Hr as [Hr|Hr].
+      * apply state_ok_set; [exact HQ|reflexivity|reflexivity|]. intros r Hr. left. simpl in Hr. apply Hin. simpl. apply in_app_or in Hr. destruct Hr as [Hr|Hr].
         -- (* the hints keep the disjunction itself *)
            apply in_flat_map in Hr. destruct Hr as [[hk hd] [Hkd Hr]]. simpl in Hr.
            assert (hd = d) as ->.
@@ -1608,4 +1618,470 @@ Proof.
   step_res H s5 P5. pose proof (nm_fd _ _ M4 P5) as M5.
   step_res H s6 P6. pose proof (dim_keeps_mappings _ _ (no_mappings_ok _ M5) P6) as M6.
   step_total H. simpl in H. inversion H; subst. apply rnev_keeps_mappings. exact M6.
+Qed.
+
+(* =====================================================================================
+   DisjunctionOfAnonymousStructsToExplicit, in general
+   ===================================================================================== *)
+Section DoasteRefs.
+  Variable G : list (string * string).
+  Variable pkg : string.
+  Let ST := list (string * object).
+  Definition doaste_post (st : ST) (X : ty * ST) : Prop :=
+    st_keys_le st (snd X) /\ state_ok G pkg (snd X) /\ forall r, In r (all_refs (fst X)) -> ref_good G pkg (snd X) r.
+
+  Lemma keys_le_refl (st : ST) : st_keys_le st st. Proof. intros k H; exact H. Qed.
+  Lemma keys_le_trans (a b c : ST) : st_keys_le a b -> st_keys_le b c -> st_keys_le a c.
+  Proof. intros H1 H2 k H. apply H2. apply H1. exact H. Qed.
+
+  Lemma doaste_refs : forall t st, all_refs_in G t -> state_ok G pkg st -> doaste_post st (doaste_ty pkg st t).
+  Proof.
+    induction t as [a d IH|a v IH|a vs IH|a i v IHi IHv|a dh fs IHd IHf|a pk n|a pk n v|a k v cs|a bs IH|a v|a k]
+      using ty_ind'; intros st Hin HQ;
+      try (split; [apply keys_le_refl|split; [exact HQ|intros r Hr; left; apply Hin; exact Hr]]).
+    - (* union *)
+      rewrite doaste_disj. destruct (_ && _); [split; [apply keys_le_refl|split; [exact HQ|intros r Hr; left; apply Hin; exact Hr]]|].
+      assert (forall l i st0, (forall b, In b l -> In b (d_branches d)) -> state_ok G pkg st0 ->
+                st_keys_le st0 (snd (doaste_branches pkg i l st0)) /\ state_ok G pkg (snd (doaste_branches pkg i l st0)) /\
+                forall r, In r (flat_map all_refs (fst (doaste_branches pkg i l st0))) -> ref_good G pkg (snd (doaste_branches pkg i l st0)) r) as GB.
+      { induction l as [|b rest IHl]; intros i st0 Hsub HQ0; [split; [apply keys_le_refl|split; [exact HQ0|intros r []]]|].
+        assert (all_refs_in G b) as Hb.
+        { intros r Hr. apply Hin. simpl. apply in_flat_map. exists b. split; [apply Hsub; left; reflexivity|exact Hr]. }
+        assert (forall st1, state_ok G pkg st1 -> st_keys_le st0 st1 ->
+                  st_keys_le st0 (snd (let '(r', st2) := doaste_branches pkg (S i) rest st1 in (b :: r', st2))) /\
+                  state_ok G pkg (snd (let '(r', st2) := doaste_branches pkg (S i) rest st1 in (b :: r', st2))) /\
+                  forall r, In r (flat_map all_refs (fst (let '(r', st2) := doaste_branches pkg (S i) rest st1 in (b :: r', st2)))) ->
+                            ref_good G pkg (snd (let '(r', st2) := doaste_branches pkg (S i) rest st1 in (b :: r', st2))) r) as Hkeep.
+        { intros st1 HQ1 Hle. destruct (IHl (S i) st1 (fun x Hx => Hsub x (or_intror Hx)) HQ1) as [L [Q R]].
+          destruct (doaste_branches pkg (S i) rest st1) as [r' st2]. simpl in *.
+          split; [eapply keys_le_trans; eassumption|split; [exact Q|]]. intros r Hr. apply in_app_or in Hr.
+          destruct Hr as [Hr|Hr]; [left; apply Hb; exact Hr|apply R; exact Hr]. }
+        simpl. destruct b as [a1 d1|a1 v1|a1 vs1|a1 i1 v1|a1 dh1 fs1|a1 pk1 n1|a1 pk1 n1 v1|a1 k1 v1 cs1|a1 bs1|a1 v1|a1 k1];
+          try (apply Hkeep; [exact HQ0|apply keys_le_refl]).
+        (* a struct branch: visited, registered, replaced by a reference *)
+        rewrite Forall_forall in IH. destruct (IH _ (Hsub _ (or_introl eq_refl)) st0 Hb HQ0) as [L1 [Q1 R1]].
+        destruct (doaste_ty pkg st0 (TStruct a1 dh1 fs1)) as [b' st1]. simpl in L1, Q1, R1.
+        set (name := doaste_name (TStruct a1 dh1 fs1) i).
+        assert (state_ok G pkg (objs_set st1 name (new_object pkg name b'))) as Q2.
+        { apply state_ok_set; [exact Q1|reflexivity|reflexivity|]. intros r Hr. eapply ref_good_mono; [|apply R1; exact Hr].
+          intros k0 Hk0. apply objs_set_has. left. exact Hk0. }
+        destruct (IHl (S i) _ (fun x Hx => Hsub x (or_intror Hx)) Q2) as [L3 [Q3 R3]].
+        destruct (doaste_branches pkg (S i) rest (objs_set st1 name (new_object pkg name b'))) as [r' st3]. simpl in *.
+        split; [|split; [exact Q3|]].
+        + intros k0 Hk0. apply L3. apply objs_set_has. left. apply L1. exact Hk0.
+        + intros r [Hr|Hr]; [|apply R3; exact Hr]. subst r. right. split; [reflexivity|]. simpl. apply L3. apply objs_set_has. right. reflexivity. }
+      destruct (GB (d_branches d) 0 st (fun b Hb => Hb) HQ) as [L [Q R]]. simpl. split; [exact L|split; [exact Q|exact R]].
+    - rewrite doaste_array. simpl. exact (IH st Hin HQ).
+    - rewrite doaste_map. simpl.
+      destruct (IHi st (fun r Hr => Hin r (in_or_app _ _ _ (or_introl Hr))) HQ) as [L1 [Q1 R1]].
+      destruct (IHv (snd (doaste_ty pkg st i)) (fun r Hr => Hin r (in_or_app _ _ _ (or_intror Hr))) Q1) as [L2 [Q2 R2]].
+      split; [eapply keys_le_trans; eassumption|split; [exact Q2|]]. intros r Hr. simpl in Hr. apply in_app_or in Hr.
+      destruct Hr as [Hr|Hr]; [eapply ref_good_mono; [exact L2|apply R1; exact Hr]|apply R2; exact Hr].
+    - rewrite doaste_struct. simpl.
+      assert (forall l st0, Forall (fun f => forall st, all_refs_in G (f_type f) -> state_ok G pkg st -> doaste_post st (doaste_ty pkg st (f_type f))) l ->
+                (forall r, In r (flat_map (fun f => all_refs (f_type f)) l) -> In r G) -> state_ok G pkg st0 ->
+                st_keys_le st0 (snd (doaste_fields pkg l st0)) /\ state_ok G pkg (snd (doaste_fields pkg l st0)) /\
+                forall r, In r (flat_map (fun f => all_refs (f_type f)) (fst (doaste_fields pkg l st0))) -> ref_good G pkg (snd (doaste_fields pkg l st0)) r) as GF.
+      { induction l as [|f rest IHl]; intros st0 HF Hl HQ0; [split; [apply keys_le_refl|split; [exact HQ0|intros r []]]|].
+        inversion HF as [|? ? Hf Hrest]; subst. simpl.
+        destruct (Hf st0 (fun r Hr => Hl r (in_or_app _ _ _ (or_introl Hr))) HQ0) as [L1 [Q1 R1]].
+        destruct (doaste_ty pkg st0 (f_type f)) as [t' st1]. simpl in L1, Q1, R1.
+        destruct (IHl st1 Hrest (fun r Hr => Hl r (in_or_app _ _ _ (or_intror Hr))) Q1) as [L2 [Q2 R2]].
+        destruct (doaste_fields pkg rest st1) as [r' st2]. simpl in *.
+        split; [eapply keys_le_trans; eassumption|split; [exact Q2|]]. intros r Hr. apply in_app_or in Hr.
+        destruct Hr as [Hr|Hr]; [eapply ref_good_mono; [exact L2|apply R1; exact Hr]|apply R2; exact Hr]. }
+      destruct (GF fs st IHf (fun r Hr => Hin r (in_or_app _ _ _ (or_intror Hr))) HQ) as [L [Q R]].
+      split; [exact L|split; [exact Q|]]. intros r Hr. simpl in Hr. apply in_app_or in Hr.
+      destruct Hr as [Hr|Hr]; [left; apply Hin; simpl; apply in_or_app; left; exact Hr|apply R; exact Hr].
+    - rewrite doaste_inter. simpl.
+      assert (forall l st0, Forall (fun b => forall st, all_refs_in G b -> state_ok G pkg st -> doaste_post st (doaste_ty pkg st b)) l ->
+                (forall r, In r (flat_map all_refs l) -> In r G) -> state_ok G pkg st0 ->
+                st_keys_le st0 (snd (doaste_list pkg l st0)) /\ state_ok G pkg (snd (doaste_list pkg l st0)) /\
+                forall r, In r (flat_map all_refs (fst (doaste_list pkg l st0))) -> ref_good G pkg (snd (doaste_list pkg l st0)) r) as GL.
+      { induction l as [|b rest IHl]; intros st0 HF Hl HQ0; [split; [apply keys_le_refl|split; [exact HQ0|intros r []]]|].
+        inversion HF as [|? ? Hb Hrest]; subst. simpl.
+        destruct (Hb st0 (fun r Hr => Hl r (in_or_app _ _ _ (or_introl Hr))) HQ0) as [L1 [Q1 R1]].
+        destruct (doaste_ty pkg st0 b) as [b' st1]. simpl in L1, Q1, R1.
+        destruct (IHl st1 Hrest (fun r Hr => Hl r (in_or_app _ _ _ (or_intror Hr))) Q1) as [L2 [Q2 R2]].
+        destruct (doaste_list pkg rest st1) as [r' st2]. simpl in *.
+        split; [eapply keys_le_trans; eassumption|split; [exact Q2|]]. intros r Hr. apply in_app_or in Hr.
+        destruct Hr as [Hr|Hr]; [eapply ref_good_mono; [exact L2|apply R1; exact Hr]|apply R2; exact Hr]. }
+      destruct (GL bs st IH Hin HQ) as [L [Q R]]. split; [exact L|split; [exact Q|exact R]].
+  Qed.
+End DoasteRefs.
+
+Theorem doaste_keeps_general ss out : wfk ss -> pkgs_unique ss -> refs_ok ss -> entries_ok ss ->
+  disjunction_of_anonymous_structs_to_explicit ss = Ok out ->
+  pkgs_unique out /\ wfk out /\ shape_kept ss out /\ refs_ok out /\ entries_ok out.
+Proof.
+  intros Hw Hu HR HE H. apply step_keeps; try assumption. unfold disjunction_of_anonymous_structs_to_explicit in H.
+  apply (Forall2_mapM _ _ _ _ H). intros s s' Hin HF.
+  apply (visit_schema_st_step (fun st t => Ok (doaste_ty (s_pkg s) st t)) (fun _ => True) s s'); [|exact I|intros; exact I| |exact HF].
+  - intros ko Hko. exact (Hw s ko Hin Hko).
+  - intros st t t' st' _ Hv Hrefs HQ. inversion Hv as [Hv']. pose proof (doaste_refs (schema_refs s) (s_pkg s) t st Hrefs HQ) as X.
+    rewrite Hv' in X. exact X.
+Qed.
+
+Theorem go_chain_keeps_references_general ss out :
+  wf_refs_input ss -> refs_ok ss -> entries_ok ss -> process chain_go ss = Ok out -> wf_refs_input out /\ refs_ok out /\ entries_ok out.
+Proof.
+  intros [W0 U0] R0 E0 H. unfold chain_go in H.
+  step_total H. destruct (astn_keeps _ W0 U0 R0 E0) as [U1 [W1 [_ [R1 E1]]]].
+  step_total H. destruct (nrfn_keeps _ W1 U1 R1 E1) as [U2 [W2 [_ [R2 E2]]]].
+  step_res H s3 P3. destruct (dwnto_keeps _ _ W2 R2 E2 P3) as [W3 [S3 [R3 E3]]]. pose proof (shape_unique _ _ S3 U2) as U3.
+  step_res H s4 P4. destruct (docte_keeps _ _ W3 R3 E3 P4) as [W4 [S4 [R4 E4]]]. pose proof (shape_unique _ _ S4 U3) as U4.
+  step_total H. destruct (aete_keeps _ W4 U4 R4 E4) as [U5 [W5 [_ [R5 E5]]]].
+  step_res H s6 P6. destruct (pev_keeps _ _ W5 U5 R5 E5 P6) as [U6 [W6 [_ [R6 E6]]]].
+  step_res H s7 P7. destruct (fd_keeps _ _ W6 R6 E6 P7) as [W7 [S7 [R7 E7]]]. pose proof (shape_unique _ _ S7 U6) as U7.
+  step_res H s8 P8. destruct (doaste_keeps_general _ _ W7 U7 R7 E7 P8) as [U8 [W8 [_ [R8 E8]]]].
+  step_res H s9 P9. destruct (dim_keeps _ _ W8 R8 E8 P9) as [W9 [S9 [R9 E9]]]. pose proof (shape_unique _ _ S9 U8) as U9.
+  step_res H s10 P10. destruct (udta_keeps _ _ W9 R9 E9 P10) as [W10 [S10 [R10 E10]]]. pose proof (shape_unique _ _ S10 U9) as U10.
+  step_res H s11 P11. simpl in H. inversion H; subst. destruct (dtt_keeps _ _ W10 U10 R10 E10 P11) as [U11 [W11 [_ [R11 E11]]]].
+  split; [split; assumption|split; assumption].
+Qed.
+
+(* =====================================================================================
+   mappings through the other chains
+   ===================================================================================== *)
+Lemma aete_nm spkg pkg cur : forall t sug, nm_ty t = true ->
+  nm_ty (fst (aete_type spkg pkg cur sug t)) = true /\ forall o, In o (snd (aete_type spkg pkg cur sug t)) -> nm_ty (o_type o) = true.
+Proof.
+  induction t as [a d IH|a v IH|a vs IH|a i v IHi IHv|a dh fs IHd IHf|a pk n|a pk n v|a k v cs|a bs IH|a v|a k]
+    using ty_ind'; intros sug H; try solve [split; [exact H|intros o []]].
+  - rewrite aete_disj. simpl in *. apply andb_true_iff in H. destruct H as [Hm Hb]. rewrite forallb_forall in Hb. rewrite Forall_forall in IH.
+    rewrite (proj1 (aete_list_spec spkg pkg cur sug _)), (proj2 (aete_list_spec spkg pkg cur sug _)). split.
+    + unfold no_map in *. simpl. rewrite Hm. simpl. rewrite forallb_map. apply forallb_forall. intros b Hbin. exact (proj1 (IH b Hbin sug (Hb b Hbin))).
+    + intros o Ho. apply in_flat_map in Ho. destruct Ho as [b [Hbin Ho]]. exact (proj2 (IH b Hbin sug (Hb b Hbin)) o Ho).
+  - rewrite aete_array. simpl in *. exact (IH sug H).
+  - simpl. split; [reflexivity|]. intros o [E|[]]. subst o. reflexivity.
+  - rewrite aete_map. simpl in *. apply andb_true_iff in H. destruct H as [H1 H2]. destruct (IHi sug H1) as [A1 A2]. destruct (IHv sug H2) as [B1 B2].
+    split; [rewrite A1, B1; reflexivity|]. intros o Ho. apply in_app_or in Ho. destruct Ho as [Ho|Ho]; [apply A2|apply B2]; exact Ho.
+  - rewrite aete_struct. simpl in *. apply andb_true_iff in H. destruct H as [Hd Hf]. rewrite forallb_forall in Hf. rewrite Forall_forall in IHf.
+    rewrite (proj1 (aete_fields_spec spkg pkg cur _)), (proj2 (aete_fields_spec spkg pkg cur _)). split.
+    + rewrite Hd. simpl. rewrite forallb_map. apply forallb_forall. intros f Hfin. simpl. exact (proj1 (IHf f Hfin _ (Hf f Hfin))).
+    + intros o Ho. apply in_flat_map in Ho. destruct Ho as [f [Hfin Ho]]. exact (proj2 (IHf f Hfin _ (Hf f Hfin)) o Ho).
+  - rewrite aete_inter. simpl in *. rewrite forallb_forall in H. rewrite Forall_forall in IH.
+    rewrite (proj1 (aete_list_spec spkg pkg cur sug _)), (proj2 (aete_list_spec spkg pkg cur sug _)). split.
+    + rewrite forallb_map. apply forallb_forall. intros b Hbin. exact (proj1 (IH b Hbin sug (H b Hbin))).
+    + intros o Ho. apply in_flat_map in Ho. destruct Ho as [b [Hbin Ho]]. exact (proj2 (IH b Hbin sug (H b Hbin)) o Ho).
+Qed.
+
+Theorem nm_aete ss : no_mappings ss = true -> no_mappings (anonymous_enum_to_explicit_type ss) = true.
+Proof.
+  unfold no_mappings, anonymous_enum_to_explicit_type. rewrite !forallb_forall. intros H s' Hs'.
+  apply in_map_iff in Hs'. destruct Hs' as [s [<- Hs]]. specialize (H s Hs). apply andb_true_iff in H. destruct H as [He Ho].
+  rewrite forallb_forall in Ho. unfold aete_schema.
+  match goal with |- context [fold_left ?F0 (s_objects s) ([], [])] => set (F := F0) end.
+  assert ((fun acc : list (string * object) * list object =>
+             (forall k o, In (k, o) (fst acc) -> nm_ty (o_type o) = true) /\ (forall o, In o (snd acc) -> nm_ty (o_type o) = true))
+            (fold_left F (s_objects s) ([], []))) as Hinv.
+  { apply fold_left_inv; [|split; [intros k o []|intros o []]].
+    intros [objs news] [k0 o0] Hin0 [H1 H2]. unfold F. simpl. destruct (is_enum (o_type o0)); simpl.
+    - split; [|exact H2]. intros k o Hx. destruct (objs_set_in_kv _ _ _ _ _ Hx) as [Y|[_ ->]]; [eapply H1; exact Y|exact (Ho (k0, o0) Hin0)].
+    - pose proof (aete_nm (s_pkg s) (o_selfpkg o0) (o_name o0) (o_type o0) (String.append (upper_camel_case (o_name o0)) "Enum") (Ho (k0, o0) Hin0)) as [A B].
+      destruct (aete_type _ _ _ _ (o_type o0)) as [t' n]. simpl in *. split.
+      + intros k o Hx. destruct (objs_set_in_kv _ _ _ _ _ Hx) as [Y|[_ ->]]; [eapply H1; exact Y|exact A].
+      + intros o Hx. apply in_app_or in Hx. destruct Hx as [Hx|Hx]; [apply H2; exact Hx|apply B; exact Hx]. }
+  destruct (fold_left F (s_objects s) ([], [])) as [objs news]. simpl in *. destruct Hinv as [H1 H2].
+  rewrite He. simpl. apply forallb_forall. intros [k o] Hko. simpl. apply fold_add_object_in in Hko.
+  destruct Hko as [Hko|Hko]; [eapply H1; exact Hko|apply H2; exact Hko].
+Qed.
+
+Lemma pev_entry ss out s' : prefix_enum_values ss = Ok out -> In s' out -> exists s, In s ss /\ s_entrytype s' = s_entrytype s.
+Proof.
+  intros H Hs'. unfold prefix_enum_values in H. destruct (Forall2_in_r _ _ _ (mapM_Forall2 _ _ _ H) s' Hs') as [s [Hs HF]].
+  rewrite map_objects_res_eq in HF. destruct (mor_loop pev_object (s_objects s) []); simpl in HF; try discriminate. inversion HF; subst.
+  exists s. split; [exact Hs|reflexivity].
+Qed.
+
+Theorem nm_pev ss out : no_mappings ss = true -> prefix_enum_values ss = Ok out -> no_mappings out = true.
+Proof.
+  intros Hn H. unfold no_mappings in *. rewrite forallb_forall in *. intros s' Hs'.
+  destruct (pev_entry _ _ _ H Hs') as [s [Hs Ee]]. rewrite Ee. pose proof (Hn s Hs) as Hx. apply andb_true_iff in Hx. destruct Hx as [He _].
+  rewrite He. simpl. apply forallb_forall. intros [k o'] Hko. simpl.
+  assert (In o' (objects_of out)) as Ho' by (apply in_objects_of; exists s', k; split; assumption).
+  destruct (pev_objects _ _ _ H Ho') as [o [Ho [_ [E|[a [vs [vs' [_ E2]]]]]]]]; [|rewrite E2; reflexivity].
+  rewrite E. apply in_objects_of in Ho. destruct Ho as [s0 [k0 [Hs0 Hk0]]]. specialize (Hn s0 Hs0). apply andb_true_iff in Hn.
+  destruct Hn as [_ Hn]. rewrite forallb_forall in Hn. exact (Hn (k0, o) Hk0).
+Qed.
+
+Lemma senm_nm : forall t t', senm_ty t = Ok t' -> nm_ty t' = nm_ty t.
+Proof.
+  induction t as [a d IH|a v IH|a vs IH|a i v IHi IHv|a dh fs IHd IHf|a pk n|a pk n v|a k v cs|a bs IH|a v|a k]
+    using ty_ind'; intros t' H;
+    [rewrite senm_disj_eq in H|simpl in H|simpl in H|simpl in H|rewrite senm_struct_eq in H
+     |simpl in H|simpl in H|simpl in H|rewrite senm_inter_eq in H|simpl in H|simpl in H];
+    try (inversion H; subst; reflexivity).
+  - assert (forall l l', Forall (fun b => forall t', senm_ty b = Ok t' -> nm_ty t' = nm_ty b) l ->
+              senm_list l = Ok l' -> forallb nm_ty l' = forallb nm_ty l) as G.
+    { induction l as [|b r IHl]; intros l' HF Hl; simpl in Hl; [inversion Hl; subst; reflexivity|].
+      inversion HF as [|? ? Hb Hr]; subst.
+      destruct (senm_ty b) as [b1| | |] eqn:E1; simpl in Hl; try discriminate.
+      destruct (senm_list r) as [r1| | |] eqn:E2; simpl in Hl; try discriminate.
+      inversion Hl; subst. simpl. rewrite (Hb b1 eq_refl), (IHl r1 Hr eq_refl). reflexivity. }
+    destruct (senm_list (d_branches d)) as [bs1| | |] eqn:E; simpl in H; try discriminate. inversion H; subst. simpl.
+    unfold no_map. simpl. rewrite (G _ _ IH E). reflexivity.
+  - destruct (senm_ty v) as [v1| | |] eqn:E; simpl in H; try discriminate. inversion H; subst. simpl. exact (IH v1 eq_refl).
+  - destruct (mapM senm_member vs) as [vs1| | |]; simpl in H; try discriminate. inversion H; subst. reflexivity.
+  - destruct (senm_ty i) as [i1| | |] eqn:Ei; simpl in H; try discriminate.
+    destruct (senm_ty v) as [v1| | |] eqn:Ev; simpl in H; try discriminate. inversion H; subst. simpl.
+    rewrite (IHi i1 eq_refl), (IHv v1 eq_refl). reflexivity.
+  - assert (forall l l', Forall (fun f => forall t', senm_ty (f_type f) = Ok t' -> nm_ty t' = nm_ty (f_type f)) l ->
+              senm_fields l = Ok l' -> forallb (fun f => nm_ty (f_type f)) l' = forallb (fun f => nm_ty (f_type f)) l) as G.
+    { induction l as [|f r IHl]; intros l' HF Hl; simpl in Hl; [inversion Hl; subst; reflexivity|].
+      inversion HF as [|? ? Hf Hr]; subst.
+      destruct (senm_ty (f_type f)) as [t1| | |] eqn:E1; simpl in Hl; try discriminate.
+      destruct (senm_fields r) as [r1| | |] eqn:E2; simpl in Hl; try discriminate.
+      inversion Hl; subst. simpl. rewrite (Hf t1 eq_refl), (IHl r1 Hr eq_refl). reflexivity. }
+    destruct (senm_fields fs) as [fs1| | |] eqn:E; simpl in H; try discriminate. inversion H; subst. simpl. rewrite (G _ _ IHf E). reflexivity.
+  - assert (forall l l', Forall (fun b => forall t', senm_ty b = Ok t' -> nm_ty t' = nm_ty b) l ->
+              senm_list l = Ok l' -> forallb nm_ty l' = forallb nm_ty l) as G.
+    { induction l as [|b r IHl]; intros l' HF Hl; simpl in Hl; [inversion Hl; subst; reflexivity|].
+      inversion HF as [|? ? Hb Hr]; subst.
+      destruct (senm_ty b) as [b1| | |] eqn:E1; simpl in Hl; try discriminate.
+      destruct (senm_list r) as [r1| | |] eqn:E2; simpl in Hl; try discriminate.
+      inversion Hl; subst. simpl. rewrite (Hb b1 eq_refl), (IHl r1 Hr eq_refl). reflexivity. }
+    destruct (senm_list bs) as [bs1| | |] eqn:E; simpl in H; try discriminate. inversion H; subst. simpl. exact (G _ _ IH E).
+Qed.
+
+Theorem nm_senm ss out : no_mappings ss = true -> sanitize_enum_member_names ss = Ok out -> no_mappings out = true.
+Proof.
+  intros Hn H. unfold sanitize_enum_member_names in H. rewrite no_mappings_eq in *.
+  eapply (vs_types_all nm_ty (fun _ => senm_ty)); [|exact Hn|exact H].
+  intros s t t' _ _ Ht Hx. rewrite (senm_nm _ _ Ht). exact Hx.
+Qed.
+
+(* DOASTE *)
+Definition nm_state (st : list (string * object)) : Prop := forall k o, In (k, o) st -> nm_ty (o_type o) = true.
+Lemma doaste_nm pkg : forall t st, nm_ty t = true -> nm_state st ->
+  nm_ty (fst (doaste_ty pkg st t)) = true /\ nm_state (snd (doaste_ty pkg st t)).
+Proof.
+  induction t as [a d IH|a v IH|a vs IH|a i v IHi IHv|a dh fs IHd IHf|a pk n|a pk n v|a k v cs|a bs IH|a v|a k]
+    using ty_ind'; intros st H HQ; try (split; [exact H|exact HQ]).
+  - rewrite doaste_disj. destruct (_ && _); [split; [exact H|exact HQ]|]. simpl in H. apply andb_true_iff in H. destruct H as [Hm Hb].
+    rewrite forallb_forall in Hb. rewrite Forall_forall in IH.
+    assert (forall l i st0, (forall b, In b l -> In b (d_branches d)) -> nm_state st0 ->
+              forallb nm_ty (fst (doaste_branches pkg i l st0)) = true /\ nm_state (snd (doaste_branches pkg i l st0))) as GB.
+    { induction l as [|b rest IHl]; intros i st0 Hsub HQ0; [split; [reflexivity|exact HQ0]|].
+      assert (nm_ty b = true) as Hnb by (apply Hb; apply Hsub; left; reflexivity).
+      assert (forall st1, nm_state st1 ->
+                forallb nm_ty (fst (let '(r', st2) := doaste_branches pkg (S i) rest st1 in (b :: r', st2))) = true /\
+                nm_state (snd (let '(r', st2) := doaste_branches pkg (S i) rest st1 in (b :: r', st2)))) as Hkeep.
+      { intros st1 HQ1. destruct (IHl (S i) st1 (fun x Hx => Hsub x (or_intror Hx)) HQ1) as [A B].
+        destruct (doaste_branches pkg (S i) rest st1) as [r' st2]. simpl in *. rewrite Hnb, A. split; [reflexivity|exact B]. }
+      simpl. destruct b as [a1 d1|a1 v1|a1 vs1|a1 i1 v1|a1 dh1 fs1|a1 pk1 n1|a1 pk1 n1 v1|a1 k1 v1 cs1|a1 bs1|a1 v1|a1 k1];
+        try (apply Hkeep; exact HQ0).
+      destruct (IH _ (Hsub _ (or_introl eq_refl)) st0 Hnb HQ0) as [A1 Q1].
+      destruct (doaste_ty pkg st0 (TStruct a1 dh1 fs1)) as [b' st1]. simpl in A1, Q1.
+      set (name := doaste_name (TStruct a1 dh1 fs1) i).
+      assert (nm_state (objs_set st1 name (new_object pkg name b'))) as Q2.
+      { intros k0 o0 Hx. destruct (objs_set_in_kv _ _ _ _ _ Hx) as [Y|[_ ->]]; [eapply Q1; exact Y|exact A1]. }
+      destruct (IHl (S i) _ (fun x Hx => Hsub x (or_intror Hx)) Q2) as [A3 Q3].
+      destruct (doaste_branches pkg (S i) rest _) as [r' st3]. simpl in *. split; [exact A3|exact Q3]. }
+    destruct (GB (d_branches d) 0 st (fun b Hx => Hx) HQ) as [A B]. simpl. unfold no_map in *. simpl. rewrite Hm, A. split; [reflexivity|exact B].
+  - rewrite doaste_array. simpl in *. exact (IH st H HQ).
+  - rewrite doaste_map. simpl in *. apply andb_true_iff in H. destruct H as [H1 H2].
+    destruct (IHi st H1 HQ) as [A1 Q1]. destruct (IHv (snd (doaste_ty pkg st i)) H2 Q1) as [A2 Q2]. rewrite A1, A2. split; [reflexivity|exact Q2].
+  - rewrite doaste_struct. simpl in *. apply andb_true_iff in H. destruct H as [Hd Hf].
+    assert (forall l st0, Forall (fun f => forall st, nm_ty (f_type f) = true -> nm_state st ->
+                                    nm_ty (fst (doaste_ty pkg st (f_type f))) = true /\ nm_state (snd (doaste_ty pkg st (f_type f)))) l ->
+              forallb (fun f => nm_ty (f_type f)) l = true -> nm_state st0 ->
+              forallb (fun f => nm_ty (f_type f)) (fst (doaste_fields pkg l st0)) = true /\ nm_state (snd (doaste_fields pkg l st0))) as GF.
+    { induction l as [|f rest IHl]; intros st0 HF Hl HQ0; [split; [reflexivity|exact HQ0]|].
+      inversion HF as [|? ? Hf1 Hrest]; subst. simpl in Hl. apply andb_true_iff in Hl. destruct Hl as [Hl1 Hl2]. simpl.
+      destruct (Hf1 st0 Hl1 HQ0) as [A1 Q1]. destruct (doaste_ty pkg st0 (f_type f)) as [t' st1]. simpl in A1, Q1.
+      destruct (IHl st1 Hrest Hl2 Q1) as [A2 Q2]. destruct (doaste_fields pkg rest st1) as [r' st2]. simpl in *. rewrite A1, A2. split; [reflexivity|exact Q2]. }
+    destruct (GF fs st IHf Hf HQ) as [A B]. rewrite Hd, A. split; [reflexivity|exact B].
+  - rewrite doaste_inter. simpl in *.
+    assert (forall l st0, Forall (fun b => forall st, nm_ty b = true -> nm_state st ->
+                                    nm_ty (fst (doaste_ty pkg st b)) = true /\ nm_state (snd (doaste_ty pkg st b))) l ->
+              forallb nm_ty l = true -> nm_state st0 ->
+              forallb nm_ty (fst (doaste_list pkg l st0)) = true /\ nm_state (snd (doaste_list pkg l st0))) as GL.
+    { induction l as [|b rest IHl]; intros st0 HF Hl HQ0; [split; [reflexivity|exact HQ0]|].
+      inversion HF as [|? ? Hb1 Hrest]; subst. simpl in Hl. apply andb_true_iff in Hl. destruct Hl as [Hl1 Hl2]. simpl.
+      destruct (Hb1 st0 Hl1 HQ0) as [A1 Q1]. destruct (doaste_ty pkg st0 b) as [b' st1]. simpl in A1, Q1.
+      destruct (IHl st1 Hrest Hl2 Q1) as [A2 Q2]. destruct (doaste_list pkg rest st1) as [r' st2]. simpl in *. rewrite A1, A2. split; [reflexivity|exact Q2]. }
+    exact (GL bs st IH H HQ).
+Qed.
+
+Lemma visit_schema_st_entry {S} (init : S) on_type news s s' :
+  visit_schema_st init on_type news s = Ok s' -> exists t st, on_type init (s_entrytype s) = Ok (t, st) /\ s_entrytype s' = t.
+Proof.
+  rewrite visit_schema_st_eq. destruct (on_type init (s_entrytype s)) as [[t st]| | |]; simpl; try discriminate.
+  destruct (vst_loop on_type (s_objects s) [] st) as [[objs st1]| | |]; simpl; try discriminate. intros H. inversion H; subst. exists t, st. split; reflexivity.
+Qed.
+
+Theorem nm_doaste ss out : no_mappings ss = true -> disjunction_of_anonymous_structs_to_explicit ss = Ok out -> no_mappings out = true.
+Proof.
+  intros Hn H. unfold no_mappings in *. rewrite forallb_forall in *. intros s' Hs'. unfold disjunction_of_anonymous_structs_to_explicit in H.
+  destruct (Forall2_in_r _ _ _ (mapM_Forall2 _ _ _ H) s' Hs') as [s [Hs HF]]. specialize (Hn s Hs). apply andb_true_iff in Hn. destruct Hn as [He Ho].
+  rewrite forallb_forall in Ho. apply andb_true_iff. split.
+  - destruct (visit_schema_st_entry _ _ _ _ _ HF) as [t [st [E1 E2]]]. inversion E1 as [E3]. rewrite E2.
+    pose proof (proj1 (doaste_nm (s_pkg s) (s_entrytype s) [] He (fun k o (Hx : In (k, o) []) => match Hx with end))) as X. rewrite E3 in X. exact X.
+  - assert (forall st t t' st', nm_ty t = true -> (fun st t => Ok (doaste_ty (s_pkg s) st t)) st t = Ok (t', st') -> nm_state st -> nm_state st') as Hq.
+    { intros st t t' st' HC Hv HQ. inversion Hv as [Hv']. pose proof (proj2 (doaste_nm (s_pkg s) t st HC HQ)) as X. rewrite Hv' in X. exact X. }
+    destruct (visit_schema_st_objects [] (fun st t => Ok (doaste_ty (s_pkg s) st t)) (map snd) (fun t => nm_ty t = true) nm_state s s'
+                Hq (fun k o (Hx : In (k, o) []) => match Hx with end) He Ho HF) as [final [HQf Hobjs]].
+    apply forallb_forall. intros [k o'] Hko. simpl. destruct (Hobjs k o' Hko) as [[[k0 o0] [st [t' [st' [Hin [HQ [Hv Heq]]]]]]]|Hnew].
+    + subst o'. simpl in *. inversion Hv as [Hv']. pose proof (proj1 (doaste_nm (s_pkg s) (o_type o0) st (Ho (k0, o0) Hin) HQ)) as X. rewrite Hv' in X. exact X.
+    + apply in_map_iff in Hnew. destruct Hnew as [[k1 o1] [E Hin]]. simpl in E. subst o1. exact (HQf k1 o' Hin).
+Qed.
+
+(* mappings_ok through UndiscriminatedDisjunctionToAny and DisjunctionToType *)
+Theorem udta_keeps_mappings ss out : mappings_ok ss -> undiscriminated_disjunction_to_any ss = Ok out -> mappings_ok out.
+Proof.
+  intros H Hd. apply mappings_ok_types. apply mappings_ok_types in H. unfold undiscriminated_disjunction_to_any in Hd.
+  eapply (v0_types_all bm_ok udta_disj); [|exact H|exact Hd].
+  intros s t t' _ _ Hv Ht. apply visit_disj0_vrel in Hv. eapply (vrel_bm (lift0 (udta_disj s))); [|exact Hv|exact Ht].
+  intros st a d t1 st1 Hx Hb. apply lift0_inv in Hx. destruct (udta_disj_shape _ _ _ _ Hx) as [->|[-> _]]; [exact Hb|reflexivity].
+Qed.
+
+Lemma vrel_pred_st {S} (f : S -> ty -> res (ty * S)) (P : ty -> bool) (Q : S -> Prop)
+  (P_array : forall a v, P (TArray a v) = P v) (P_map : forall a i v, P (TMap a i v) = P i && P v)
+  (P_inter : forall a bs, P (TInter a bs) = forallb P bs)
+  (P_struct : forall a dh fs fs', forallb (fun x => P (f_type x)) fs' = true -> P (TStruct a dh fs) = true -> P (TStruct a dh fs') = true)
+  (P_struct_fields : forall a dh fs, P (TStruct a dh fs) = true -> forallb (fun x => P (f_type x)) fs = true) :
+  (forall st a d t1 st1, f st (TDisj a d) = Ok (t1, st1) -> P (TDisj a d) = true -> Q st -> P t1 = true /\ Q st1) ->
+  forall st t t' st', vrel f st t t' st' -> P t = true -> Q st -> P t' = true /\ Q st'.
+Proof.
+  intros Hf.
+  assert ((forall st t t' st', vrel f st t t' st' -> P t = true -> Q st -> P t' = true /\ Q st') /\
+          (forall st fs fs' st', vrel_fields f st fs fs' st' -> forallb (fun x => P (f_type x)) fs = true -> Q st ->
+                                 forallb (fun x => P (f_type x)) fs' = true /\ Q st') /\
+          (forall st bs bs' st', vrel_list f st bs bs' st' -> forallb P bs = true -> Q st -> forallb P bs' = true /\ Q st')) as X.
+  { apply vrel_mutind.
+    - intros st a v v' st' _ IH H HQ. rewrite P_array in *. exact (IH H HQ).
+    - intros st a i v i' v' st1 st2 _ IHi _ IHv H HQ. rewrite P_map in *. apply andb_true_iff in H. destruct H as [H1 H2].
+      destruct (IHi H1 HQ) as [A1 Q1]. destruct (IHv H2 Q1) as [A2 Q2]. rewrite A1, A2. split; [reflexivity|exact Q2].
+    - intros st a dh fs fs' st' _ IH H HQ. destruct (IH (P_struct_fields _ _ _ H) HQ) as [A Q1]. split; [apply (P_struct a dh fs fs'); assumption|exact Q1].
+    - intros st a bs bs' st' _ IH H HQ. rewrite P_inter in *. exact (IH H HQ).
+    - intros st a d t' st' Hd H HQ. exact (Hf _ _ _ _ _ Hd H HQ).
+    - intros st t _ H HQ. split; assumption.
+    - intros st _ HQ. split; [reflexivity|exact HQ].
+    - intros st f0 t' st1 r r' st2 _ IHt _ IHr H HQ. simpl in *. apply andb_true_iff in H. destruct H as [H1 H2].
+      destruct (IHt H1 HQ) as [A1 Q1]. destruct (IHr H2 Q1) as [A2 Q2]. rewrite A1, A2. split; [reflexivity|exact Q2].
+    - intros st _ HQ. split; [reflexivity|exact HQ].
+    - intros st b b' st1 r r' st2 _ IHb _ IHr H HQ. simpl in *. apply andb_true_iff in H. destruct H as [H1 H2].
+      destruct (IHb H1 HQ) as [A1 Q1]. destruct (IHr H2 Q1) as [A2 Q2]. rewrite A1, A2. split; [reflexivity|exact Q2]. }
+  exact (proj1 X).
+Qed.
+
+Definition bm_state (st : list (string * object)) : Prop := forall k o, In (k, o) st -> bm_ok (o_type o) = true.
+
+Lemma bad_mappings_set_nullable t b : bad_mappings (set_nullable t b) = bad_mappings t.
+Proof. destruct t; reflexivity. Qed.
+
+Lemma bad_struct_nil a dh fs :
+  (forall kd, In kd dh -> mapping_dangling (snd kd) = [] /\ flat_map bad_mappings (d_branches (snd kd)) = []) ->
+  (forall f, In f fs -> bad_mappings (f_type f) = []) -> bad_mappings (TStruct a dh fs) = [].
+Proof.
+  intros H1 H2. simpl.
+  assert (flat_map (fun kd : string * disj_ ty => mapping_dangling (snd kd) ++ flat_map bad_mappings (d_branches (snd kd))) dh = []) as E1.
+  { apply flat_map_nil_iff. intros kd Hkd. destruct (H1 kd Hkd) as [A B]. rewrite A, B. reflexivity. }
+  rewrite E1. simpl. apply flat_map_nil_iff. exact H2.
+Qed.
+
+Lemma dtt_disj_bm s st a d t1 st1 : dtt_disj s st (TDisj a d) = Ok (t1, st1) -> bm_ok (TDisj a d) = true -> bm_state st -> bm_ok t1 = true /\ bm_state st1.
+Proof.
+  intros H Hb HQ. unfold bm_ok in Hb. simpl in Hb. rewrite is_nil_app in Hb. apply andb_true_iff in Hb. destruct Hb as [Hm Hbr].
+  assert (mapping_dangling d = []) as Em by (destruct (mapping_dangling d); [reflexivity|discriminate]).
+  assert (flat_map bad_mappings (d_branches d) = []) as Eb by (destruct (flat_map bad_mappings (d_branches d)); [reflexivity|discriminate]).
+  unfold dtt_disj in H. destruct (single_type_scalars s (d_branches d)) as [[k|]| | |]; simpl in H; try discriminate.
+  - inversion H; subst. split; [reflexivity|exact HQ].
+  - match type of H with context [objs_has st ?n] => destruct (objs_has st n) end.
+    + inversion H; subst. split; [reflexivity|exact HQ].
+    + match type of H with (do _ <- ?X ; _) = _ => destruct X as [dh| | |] eqn:Edh end; simpl in H; try discriminate.
+      inversion H; subst. clear H. split; [reflexivity|]. intros k o Hx. destruct (objs_set_in_kv _ _ _ _ _ Hx) as [Y|[_ ->]]; [exact (HQ _ _ Y)|].
+      match goal with |- bm_ok (o_type (new_object _ _ ?T)) = true => assert (bad_mappings T = []) as E end.
+      { apply bad_struct_nil.
+        - intros [hk hd] Hkd. simpl.
+          assert (hd = d) as ->.
+          { apply in_app_or in Hkd. destruct Hkd as [Hkd|Hkd].
+            - destruct (has_only_refs (d_branches d)); [|inversion Edh; subst; contradiction].
+              destruct (seqb (d_disc d) ""); [discriminate|]. destruct (d_mapping d); [discriminate|]. inversion Edh; subst.
+              destruct Hkd as [Hkd|[]]. inversion Hkd. reflexivity.
+            - destruct (has_only_scalar_or_array_or_map (d_branches d)); [|contradiction]. destruct Hkd as [Hkd|[]]. inversion Hkd. reflexivity. }
+          split; assumption.
+        - intros f Hf. apply in_map_iff in Hf. destruct Hf as [b [<- Hbin]]. simpl. rewrite bad_mappings_set_nullable.
+          apply filter_In in Hbin. destruct Hbin as [Hbin _]. exact (proj1 (flat_map_nil_iff _ _) Eb b Hbin). }
+      unfold bm_ok, new_object. cbn [o_type]. rewrite E. reflexivity.
+Qed.
+
+Theorem dtt_keeps_mappings ss out : mappings_ok ss -> disjunction_to_type ss = Ok out -> mappings_ok out.
+Proof.
+  intros H Hd. apply mappings_ok_types. apply mappings_ok_types in H. unfold types_all in *. rewrite forallb_forall in *. intros s' Hs'.
+  unfold disjunction_to_type in Hd. destruct (Forall2_in_r _ _ _ (mapM_Forall2 _ _ _ Hd) s' Hs') as [s [Hs HF]].
+  specialize (H s Hs). apply andb_true_iff in H. destruct H as [He Ho]. rewrite forallb_forall in Ho.
+  assert (forall st t t' st', visit_disj (dtt_disj s) st t = Ok (t', st') -> bm_ok t = true -> bm_state st -> bm_ok t' = true /\ bm_state st') as Hstep.
+  { intros st t t' st' Hv Ht HQ. apply visit_disj_vrel in Hv. eapply (vrel_pred_st (dtt_disj s) bm_ok bm_state); try eassumption; unfold bm_ok; simpl.
+    - reflexivity.
+    - intros a i v. apply is_nil_app.
+    - intros a bs. apply is_nil_flat_map.
+    - intros a dh fs fs' H1 H2. rewrite is_nil_app in *. apply andb_true_iff in H2. destruct H2 as [A _]. rewrite A. simpl. rewrite is_nil_flat_map. exact H1.
+    - intros a dh fs H0. rewrite is_nil_app in H0. apply andb_true_iff in H0. destruct H0 as [_ B]. rewrite is_nil_flat_map in B. exact B.
+    - intros st0 a d t1 st1. apply dtt_disj_bm. }
+  apply andb_true_iff. split.
+  - destruct (visit_schema_st_entry _ _ _ _ _ HF) as [t [st [E1 E2]]]. rewrite E2.
+    exact (proj1 (Hstep _ _ _ _ E1 He (fun k o (Hx : In (k, o) []) => match Hx with end))).
+  - destruct (visit_schema_st_objects [] (visit_disj (dtt_disj s)) (map snd) (fun t => bm_ok t = true) bm_state s s'
+                (fun st t t' st' HC Hv HQ => proj2 (Hstep st t t' st' Hv HC HQ)) (fun k o (Hx : In (k, o) []) => match Hx with end) He Ho HF) as [final [HQf Hobjs]].
+    apply forallb_forall. intros [k o'] Hko. simpl. destruct (Hobjs k o' Hko) as [[[k0 o0] [st [t' [st' [Hin [HQ [Hv Heq]]]]]]]|Hnew].
+    + subst o'. simpl in *. exact (proj1 (Hstep _ _ _ _ Hv (Ho (k0, o0) Hin) HQ)).
+    + apply in_map_iff in Hnew. destruct Hnew as [[k1 o1] [E Hin]]. simpl in E. subst o1. exact (HQf k1 o' Hin).
+Qed.
+
+(* =====================================================================================
+   THE GO, JAVA-CORE AND PHP-CORE CHAINS keep everything resolving when the input has no mapping
+   ===================================================================================== *)
+Theorem go_chain_keeps_resolving ss out :
+  wf_refs_input ss -> no_mappings ss = true -> resolves ss = true -> process chain_go ss = Ok out -> resolves out = true.
+Proof.
+  intros Hwf Hnm Hr H. apply resolves_iff in Hr. destruct Hr as [R0 [E0 _]].
+  destruct (go_chain_keeps_references_general _ _ Hwf R0 E0 H) as [_ [R E]]. apply resolves_iff. split; [exact R|split; [exact E|]].
+  unfold chain_go in H.
+  step_total H. pose proof (nm_astn _ Hnm) as M1.
+  step_total H. pose proof (nm_nrfn _ M1) as M2.
+  step_res H s3 P3. pose proof (nm_dwnto _ _ M2 P3) as M3.
+  step_res H s4 P4. pose proof (nm_docte _ _ M3 P4) as M4.
+  step_total H. pose proof (nm_aete _ M4) as M5.
+  step_res H s6 P6. pose proof (nm_pev _ _ M5 P6) as M6.
+  step_res H s7 P7. pose proof (nm_fd _ _ M6 P7) as M7.
+  step_res H s8 P8. pose proof (nm_doaste _ _ M7 P8) as M8.
+  step_res H s9 P9. pose proof (dim_keeps_mappings _ _ (no_mappings_ok _ M8) P9) as M9.
+  step_res H s10 P10. pose proof (udta_keeps_mappings _ _ M9 P10) as M10.
+  step_res H s11 P11. simpl in H. inversion H; subst. exact (dtt_keeps_mappings _ _ M10 P11).
+Qed.
+
+Theorem java_core_chain_keeps_resolving ss out :
+  wf_refs_input ss -> no_mappings ss = true -> resolves ss = true -> process (removelast chain_java) ss = Ok out -> resolves out = true.
+Proof.
+  intros Hwf Hnm Hr H. apply resolves_iff in Hr. destruct Hr as [R0 [E0 _]].
+  destruct (java_core_chain_keeps_references _ _ Hwf R0 E0 H) as [_ [R E]]. apply resolves_iff. split; [exact R|split; [exact E|]].
+  unfold chain_java in H. cbn [removelast] in H.
+  step_total H. pose proof (nm_astn _ Hnm) as M1.
+  step_total H. pose proof (nm_nrfn _ M1) as M2.
+  step_res H s3 P3. pose proof (nm_dwnto _ _ M2 P3) as M3.
+  step_res H s4 P4. pose proof (nm_docte _ _ M3 P4) as M4.
+  step_total H. pose proof (nm_aete _ M4) as M5.
+  step_res H s6 P6. pose proof (nm_fd _ _ M5 P6) as M6.
+  step_res H s7 P7. pose proof (dim_keeps_mappings _ _ (no_mappings_ok _ M6) P7) as M7.
+  step_res H s8 P8. pose proof (udta_keeps_mappings _ _ M7 P8) as M8.
+  step_res H s9 P9. simpl in H. inversion H; subst. exact (dtt_keeps_mappings _ _ M8 P9).
+Qed.
+
+Theorem php_core_chain_keeps_resolving ss out :
+  wf_refs_input ss -> no_mappings ss = true -> resolves ss = true -> process (removelast chain_php) ss = Ok out -> resolves out = true.
+Proof.
+  intros Hwf Hnm Hr H. apply resolves_iff in Hr. destruct Hr as [R0 [E0 _]].
+  destruct (php_core_chain_keeps_references _ _ Hwf R0 E0 H) as [_ [R E]]. apply resolves_iff. split; [exact R|split; [exact E|]].
+  unfold chain_php in H. cbn [removelast] in H.
+  step_total H. pose proof (nm_astn _ Hnm) as M1.
+  step_total H. pose proof (nm_nrfn _ M1) as M2.
+  step_res H s3 P3. pose proof (nm_dwnto _ _ M2 P3) as M3.
+  step_res H s4 P4. pose proof (nm_docte _ _ M3 P4) as M4.
+  step_total H. pose proof (nm_aete _ M4) as M5.
+  step_res H s6 P6. pose proof (nm_senm _ _ M5 P6) as M6.
+  step_res H s7 P7. pose proof (nm_fd _ _ M6 P7) as M7.
+  step_res H s8 P8. pose proof (dim_keeps_mappings _ _ (no_mappings_ok _ M7) P8) as M8.
+  step_res H s9 P9. simpl in H. inversion H; subst. exact (udta_keeps_mappings _ _ M8 P9).
 Qed.
